@@ -38,7 +38,7 @@ func c17Gen(rt *rapid.T) c17Case {
 	cur := ""
 	var c c17Case
 	n := rapid.IntRange(8, 60).Draw(rt, "nops")
-	cfg := gen.HistCfg{MaxTables: 3, MaxCols: 3, Direct: true, RowCounts: []int{1, 1, 2, 3, 8, 9, 10}, Small: true}
+	cfg := gen.HistCfg{MaxTables: 3, MaxCols: 3, Direct: true, RowCounts: []int{1, 1, 2, 3, 8, 9, 10}, Small: rapid.IntRange(0, 3).Draw(rt, "smallvals") > 0}
 	if rapid.IntRange(0, 3).Draw(rt, "manytables") == 0 {
 		cfg.MaxTables, cfg.MaxCols = 10, 2
 		n = rapid.IntRange(40, 90).Draw(rt, "nops_many")
